@@ -1,7 +1,7 @@
 /-
 Lemmas/C13History.lean — wrap keeps the value; registry / frame-list lemmas for event histories.
 -/
-import SqlframeModel.Lemmas.C13Splice
+import SqlframeModel.Lemmas.C13Lexical
 namespace Sqlframe.Views
 open Sqlframe Sqlframe.Gen
 
@@ -11,11 +11,18 @@ open Sqlframe Sqlframe.Gen
 def FreshName (h : Name) (fr : Frame) : Prop :=
   h ∉ names fr.ctes ∧ h ∉ fr.leaf.refs ∧ ∀ c ∈ fr.ctes, h ∉ c.2.refs
 
-theorem wrap_value (nm : Namer) (db : Db) (fr : Frame) (hf : FreshName (nm fr.ctes fr.leaf) fr) (T : Table) :
+/-- what `_convert_leaf_to_cte` does when the conversion keeps the chain and clears only the leaf's WITH list -/
+theorem wrap_eq (hc : cteClearedArgs = ["with"]) (hk : wrapKeepsChain = true) (nm : Namer) (fr : Frame) :
+    wrap nm fr = ⟨fr.ctes ++ [(nm fr.ctes fr.leaf, fr.leaf)], .un .byName (.scan (nm fr.ctes fr.leaf))⟩ := by
+  simp [wrap, movedLeaf_id hc, keptChain, hk]
+
+theorem wrap_value (hc : cteClearedArgs = ["with"]) (hk : wrapKeepsChain = true)
+    (nm : Namer) (db : Db) (fr : Frame) (hf : FreshName (nm fr.ctes fr.leaf) fr) (T : Table) :
     Evaluates db (wrap nm fr).query T ↔ ∃ T₀, Evaluates db fr.query T₀ ∧ UnOp.byName.apply T₀ = some T := by
   obtain ⟨h1, h2, h3⟩ := hf
   generalize hh : nm fr.ctes fr.leaf = h at h1 h2 h3
-  have hC : (wrap nm fr).query = ⟨fr.ctes ++ [(h, fr.leaf)], .un .byName (.scan h)⟩ := by simp [wrap, Frame.query, hh]
+  have hC : (wrap nm fr).query = ⟨fr.ctes ++ [(h, fr.leaf)], .un .byName (.scan h)⟩ := by
+    rw [wrap_eq hc hk]; simp [Frame.query, hh]
   have hassoc : assoc (fr.ctes ++ [(h, fr.leaf)]) h = some fr.leaf := by
     rw [assoc_append, (assoc_none_iff _ h).2 h1]; simp [assoc]
   have hclosed : ClosedIn fr.ctes (fr.ctes ++ [(h, fr.leaf)]) := by
@@ -60,10 +67,11 @@ theorem wrap_value (nm : Namer) (db : Db) (fr : Frame) (hf : FreshName (nm fr.ct
     exact ⟨T₀, by rw [← hleaf f]; exact hf, hb⟩
 
 /-- with distinct output names the wrapped frame has exactly the frame's value -/
-theorem wrap_value_wf (nm : Namer) (db : Db) (fr : Frame) (hf : FreshName (nm fr.ctes fr.leaf) fr)
+theorem wrap_value_wf (hc : cteClearedArgs = ["with"]) (hk : wrapKeepsChain = true)
+    (nm : Namer) (db : Db) (fr : Frame) (hf : FreshName (nm fr.ctes fr.leaf) fr)
     (hU : ∀ T₀, Evaluates db fr.query T₀ → T₀.WF) (T : Table) :
     Evaluates db (wrap nm fr).query T ↔ Evaluates db fr.query T := by
-  rw [wrap_value nm db fr hf T]
+  rw [wrap_value hc hk nm db fr hf T]
   constructor
   · rintro ⟨T₀, h, hb⟩
     rw [byName_of_wf T₀ (hU T₀ h)] at hb
@@ -72,7 +80,7 @@ theorem wrap_value_wf (nm : Namer) (db : Db) (fr : Frame) (hf : FreshName (nm fr
     exact ⟨T, h, byName_of_wf T (hU T h)⟩
 
 theorem wrap_wrapped (nm : Namer) (fr : Frame) : (wrap nm fr).Wrapped :=
-  ⟨nm fr.ctes fr.leaf, fr.leaf, by simp [wrap], rfl⟩
+  ⟨nm fr.ctes fr.leaf, movedLeaf fr.leaf, by simp [wrap], rfl⟩
 
 theorem wrap_isWrapped (nm : Namer) (fr : Frame) : (wrap nm fr).isWrapped = true := by
   simp [wrap, Frame.isWrapped]
